@@ -527,7 +527,7 @@ Section Core.
     | _ => SAnyErr                           (* attribute assignment on a non-instance *)
     end.
 
-  (* the attribute goes back to the default when the class has one, otherwise
+  (* the attribute goes back to the (prepared) default when the class has one, otherwise
      it disappears.  `top`: a deletion requested by the user (del x.a,
      reset_<a>, reset): its dependants are invalidated; deleting what is not
      there is an AttributeError.  Not `top`: a reset performed as part of an
@@ -542,7 +542,9 @@ Section Core.
             if a_is_missing dv then
               if fhas a d then (if top then invalidate (AInst c (fdel a d)) a else SOk (AInst c (fdel a d)))
               else if top then SErr AttrErr else SOk x
-            else store x sp dv top
+            else
+              (* what a new instance would hold: the default run through the preparers *)
+              pv <~ prepared sp dv None ;; store x sp pv top
         | None => SAny
         end
     | _ => SAny
